@@ -56,9 +56,17 @@ fn hostile_txs(h: &Hostile) -> Option<Vec<Transaction>> {
         "ACCUMULATION" => Some(Operation::Accumulation { amount: a, total_value: gbp(b), tax_paid: gbp(Decimal::ZERO) }),
         "SPLIT" => Some(Operation::Split { ratio: a }),
         "UNSPLIT" => Some(Operation::Unsplit { ratio: a }),
+        "BUYSAME" | "SELLPAIR" => None,
         _ => Some(Operation::Dividend { total_value: gbp(a), tax_paid: gbp(Decimal::ZERO) }),
     };
-    let mut v = vec![buy];
+    let mut v = vec![buy.clone()];
+    if h.second.kind == "BUYSAME" {
+        v.push(Transaction { date: buy.date, ticker: "ZZZ".into(), operation: Operation::Buy { amount: Decimal::ONE, price: gbp(Decimal::ONE), fees: gbp(Decimal::ZERO) } });
+        v.push(Transaction { date: buy.date, ticker: "AAA".into(), operation: Operation::Buy { amount: a, price: gbp(b), fees: gbp(Decimal::ZERO) } });
+    } else if h.second.kind == "SELLPAIR" {
+        v.push(Transaction { date, ticker: "AAA".into(), operation: Operation::Sell { amount: a, price: gbp(Decimal::ONE), fees: gbp(Decimal::ZERO) } });
+        v.push(Transaction { date, ticker: "AAA".into(), operation: Operation::Sell { amount: b, price: gbp(Decimal::from(2)), fees: gbp(Decimal::ZERO) } });
+    } else
     if let Some(op) = op { v.push(Transaction { date, ticker: "AAA".into(), operation: op }); }
     if h.order == "second_first" { v.reverse(); }
     Some(v)
